@@ -17,7 +17,9 @@ def replay_known(pid):
     still = {}
     for f in kf:
         fails = False
-        descs = [['script', f['choices']]] if f.get('choices') else [['rand', s, p] for s in range(6) for p in (0.0, 0.3)]
+        # the recorded schedule first; a script is positional, so under another launch order (hash seed) it may describe a
+        # different schedule — then the witness program is searched with a few random schedules
+        descs = ([['script', f['choices']]] if f.get('choices') else []) + [['rand', s, p] for s in range(8) for p in (0.0, 0.3, 0.6)]
         for d in descs:
             pol = ER.ScriptPolicy(d[1]) if d[0] == 'script' else ER.Policy(__import__('random').Random(d[1]), early_p=d[2])
             tr = ER.run_program(f['spec'], pol)
